@@ -94,11 +94,15 @@ def run(cx):
                     targets.append(m.group(1))
         if bool(diag) == ok:
             cx.broke("diagnose:mirror", "the Python mirror of the checker and the Coq obligation disagree (coq ok=%s, mirror failures=%d)" % (ok, len(diag)))
-    cx.log("static part done in %.1fs; targets=%s" % (time.time() - t0, targets))
-    dynamic(cx, meta, targets)
+    import c05_cow
+    tg_ok, tg_desc = c05_cow.teardown_guard(vp.REPO)
+    cx.obligation("teardown:CsgOpNode-destructor-guard", tg_ok, tg_desc)
+    cx.cov["teardown_guard"] = tg_desc
+    cx.log("static part done in %.1fs; targets=%s teardown_guard=%s" % (time.time() - t0, targets, tg_ok))
+    dynamic(cx, meta, targets, boost_deferred=not tg_ok)
 
 
-def dynamic(cx, meta, targets):
+def dynamic(cx, meta, targets, boost_deferred=False):
     try:
         import importlib
         import c05_hist
@@ -127,12 +131,13 @@ def dynamic(cx, meta, targets):
             hid = n_hist + 1 + k
             hists.append(c05_hist.line(hid, "eager", c05_hist.gen_history(rng, hid, "eager", rng.choice([8, 14, 24]), targets[k % len(targets)], avoid_known=avoid)))
     run_histories(cx, c05_hist, exe, hists)
+    deferred(cx, c05_hist, exe, boost_deferred)
     impl_level(cx, c05_hist, exe, meta, targets)
 
 
 def hid_of(l):
     p = l.split()
-    return p[1] if len(p) > 1 and p[0] in ("H", "O", "P", "N", "U", "X", "E", "S", "T") else None
+    return p[1] if len(p) > 1 and p[0] in ("H", "O", "P", "N", "U", "X", "E", "S", "T", "G") else None
 
 
 def run_histories(cx, H, exe, hists):
@@ -181,6 +186,63 @@ def run_histories(cx, H, exe, hists):
     if hists:
         cx.sample({"history": hists[0][:400]})
         cx.sample({"history": hists[len(hists) // 2][:400]})
+
+
+def deferred(cx, H, exe, boost=False):
+    """Deferred observation: pure CSG histories in mode lazy0 (objects looked at late, after unevaluated relatives
+    were reassigned/dropped) against the reference evaluation (same history, everything evaluated when built)."""
+    t0 = time.time()
+    rng = random.Random(cx.seed * 7927 + 55)
+    n = cx.pick(250, 5000) * (4 if boost else 1)       # search aimed at a broken teardown obligation
+    cases = [H.gen_deferred(rng, k, rng.choice([10, 16, 24, 40])) for k in range(1, n + 1)]
+    outs = {}
+    for mode in ("lazy0", "eager"):
+        lines = [H.line(k + 1, mode, ops) for k, ops in enumerate(cases)]
+        out, crashes = vp.run_cases(exe, lines, lambda l: l.split()[1] if l.startswith("H ") else None,
+                                    lambda l: hid_of(l) if l[:2] in ("O ", "N ", "U ", "X ", "P ", "G ") else None, timeout=1500)
+        for cl, rc, err in crashes:
+            cx.violation("history-crash", "the library crashed or hung (rc=%s) on a history of lazy CSG value operations (%s): %s" % (rc, mode, err[-300:]),
+                         {"history": cl})
+        by = {}
+        for l in out.splitlines():
+            h = hid_of(l)
+            if h is not None:
+                by.setdefault(h, []).append(l)
+        outs[mode] = by
+    compared, late, fails, seen = 0, 0, 0, set()
+    for k, ops in enumerate(cases):
+        hid = str(k + 1)
+        ol, oe = "\n".join(outs["lazy0"].get(hid, [])), "\n".join(outs["eager"].get(hid, []))
+        ll = H.line(hid, "lazy0", ops)
+        fs = []
+        try:
+            fs += H.judge(ll, ol) + H.judge(H.line(hid, "eager", ops), oe)
+        except Exception as ex:
+            cx.broke("harness:generator", "deferred history %s invalid for the harness: %s" % (hid, str(ex)[:300]))
+            continue
+        d = H.judge_deferred(ll, ol, oe)
+        if d is not None:
+            compared += 1
+            fs += d
+        late += sum(1 for t in ops if t.startswith("look:"))
+        for f in fs:
+            fails += 1
+            if f["key"] in seen:
+                continue
+            seen.add(f["key"])
+            try:
+                small = H.shrink_deferred(exe, ops, f["key"])
+            except Exception:
+                small = ops
+            cx.violation(f["key"], "%s: %s" % (f["key"], f.get("what", "")[:400]),
+                         {"history_lazy0": H.line(hid, "lazy0", small), "reference_history": H.line(hid, "eager", small),
+                          "original": ll, "how_to_replay": "echo '<history>' | %s   (G lines: status,empty,volume,area,bbox bit patterns)" % exe})
+    cx.cov["deferred"] = {"histories": len(cases), "comparable_with_reference": compared, "late_looks": late, "oracle_failures": fails,
+                          "wall_s": round(time.time() - t0, 1),
+                          "rule": "pure CSG histories (constructors, Booleans, lazy transforms, copies, op=, assignment, drop) in mode lazy0; "
+                                  "each late observation is compared (status, volume, bounding box) with the same object in the same "
+                                  "history run with every object evaluated when built"}
+    cx.cov["evaluations"] = cx.cov.get("evaluations", 0) + len(cases)
 
 
 def impl_level(cx, H, exe, meta, targets):
